@@ -12,7 +12,7 @@ inductive AddrMode
   | none | immediate | direct | direct_indexed | indirect | indirect_indexed
   | indirect_long | indirect_indexed_long | dp_or_sr_indirect_indexed
   | stack_indexed_indirect_indexed
-  deriving DecidableEq, Repr, Inhabited, BEq
+  deriving DecidableEq, Repr, Inhabited
 
 def AddrMode.toNat : AddrMode → Nat
   | .none => 0 | .immediate => 1 | .direct => 2 | .direct_indexed => 3 | .indirect => 4
@@ -33,19 +33,28 @@ def AddrMode.all : List AddrMode :=
 
 def AddrMode.ofName (s : String) : Option AddrMode := AddrMode.all.find? (fun m => m.name == s)
 
+/-- index registers as the scanner accepts them (`xXyYsS`, lower-cased by the parser) and as the
+    opcode table keys them -/
+inductive Idx | x | y | s
+  deriving DecidableEq, Repr, Inhabited
+
+def Idx.name : Idx → String | .x => "x" | .y => "y" | .s => "s"
+def Idx.ofName (s : String) : Option Idx :=
+  if s == "x" then some .x else if s == "y" then some .y else if s == "s" then some .s else none
+
 /-- The Python class of an opcode-table value. -/
 inductive OpKind
   | implied   -- `OpcodeWithoutOperand`
   | relative  -- `RelativeJumpOpcode`
   | sized     -- `Opcode` (per-width opcode bytes)
-  deriving DecidableEq, Repr, Inhabited, BEq
+  deriving DecidableEq, Repr, Inhabited
 
 /-- One leaf of `snes_opcode_table`: mnemonic, addressing mode, index key (for the
     dict-valued entries) and the opcode byte(s): `bytes[i]` is the opcode for operand width `i+1`. -/
 structure OpEntry where
   mn : String
   mode : AddrMode
-  index : Option String
+  index : Option Idx
   kind : OpKind
   bytes : List (Option Nat)
   deriving DecidableEq, Repr, Inhabited
@@ -67,7 +76,7 @@ structure BusCfg where
   deriving DecidableEq, Repr, Inhabited
 
 inductive RomType | low_rom | low_rom_2 | high_rom
-  deriving DecidableEq, Repr, Inhabited, BEq
+  deriving DecidableEq, Repr, Inhabited
 
 def RomType.name : RomType → String
   | .low_rom => "low_rom" | .low_rom_2 => "low_rom_2" | .high_rom => "high_rom"
@@ -105,4 +114,19 @@ def Err.tag : Err → String
   | .os => "OSError" | .type => "TypeError" | .assertion => "AssertionError" | .other => "Exception"
   | .symbolNotDefined _ => "SymbolNotDefined" | .node _ _ => "NodeError" | .scan _ _ _ => "ScannerException"
   | .parse _ _ => "ParserSyntaxError" | .outOfFuel => "OUT-OF-FUEL"
+end A816
+
+namespace A816
+inductive Bracket | none | paren | square
+  deriving DecidableEq, Repr, Inhabited
+
+/-- The shape of an instruction's operand as written in the source:
+    `#`?, enclosing bracket, index register inside the bracket, index register after it. -/
+structure Syntax where
+  operand : Bool            -- false: the mnemonic stands alone
+  imm : Bool
+  bracket : Bracket
+  inner : Option Idx
+  outer : Option Idx
+  deriving DecidableEq, Repr, Inhabited
 end A816
